@@ -875,7 +875,7 @@ def _argsort_float(func, args, kwargs):
     p = P(a)
     if norm_dim(dim, p.ndim) != p.ndim - 1:
         raise Unsupported("argsort along a non-last axis")
-    out = np.empty(p.shape, dtype=np.int64)
+    sym_out = np.empty(p.shape, dtype=object)
     ctx = C()
     for idx in np.ndindex(*p.shape[:-1]):
         vals = [toreal(t) for t in p[idx]]
@@ -884,9 +884,21 @@ def _argsort_float(func, args, kwargs):
         for i in range(n):
             cond = z3.And([(vals[i] >= vals[j]) if desc else (vals[i] <= vals[j]) for j in range(n) if j != i]) if n > 1 else TRUE
             opts.append((i, cond))
+        if all(is_num(v) for v in vals):
+            # concrete values: the actual order (ties in index order)
+            order = sorted(range(n), key=lambda i: (-num(vals[i]) if desc else num(vals[i]), i))
+            for k, i in enumerate(order): sym_out[idx + (k,)] = z3.IntVal(i)
+            continue
         first = ctx.decide(opts)
-        out[idx] = [first] + [i for i in range(n) if i != first]
-    return torch.from_numpy(out)
+        sym_out[idx + (0,)] = z3.IntVal(first)
+        # the remaining positions: SOME arrangement of the other indices (not modelled further: a use of them forks over all of them)
+        rest = [fresh("argsort", I) for _ in range(n - 1)]
+        for r_ in rest:
+            ctx.assume(z3.And(r_ >= 0, r_ < n, r_ != first))
+        if len(rest) > 1:
+            ctx.assume(z3.Distinct(rest))
+        for k, r_ in enumerate(rest): sym_out[idx + (k + 1,)] = r_
+    return Sym.make(sym_out, torch.int64)
 
 
 @handles("glu")
